@@ -476,7 +476,10 @@ def check_af_case(ctx, case):
       base = ref
       if pen_of is not None:
         q0, q1 = pen_of(v0, p0), pen_of(v1, p1)
-        e0 = numpy.where(q0 > 0, ref / numpy.where(q0 > 0, q0, 1.0), 0.0)
+        # the un-penalised value, recovered from whichever of the two evaluations has a non-zero penalty factor (a success
+        # probability can legitimately round to 0 in one batch shape and to 1/2 in another when sigma is at its floor)
+        e0 = numpy.maximum(numpy.where(q0 > 0, ref / numpy.where(q0 > 0, q0, 1.0), 0.0),
+                           numpy.where(q1 > 0, val / numpy.where(q1 > 0, q1, 1.0), 0.0))
         slack = slack * numpy.maximum(q0, q1) + 4 * (e0 + slack) * numpy.abs(q0 - q1)
       if costs is not None:
         slack = slack / costs
